@@ -57,7 +57,7 @@ def err(e):
 def blank(rid, kind, cls, ver):
     return {"id": rid, "kind": kind, "cls": cls, "ver": ver, "tag": 0, "val": {}, "enc_ok": False, "err": "", "bytes": [],
             "dec_ok": False, "dec_typed": False, "dec": {}, "re_ok": False, "bytes2": [], "eq": "undefined",
-            "d1": {}, "d2": {}, "e1_ok": False, "d2_ok": False, "typed": False}
+            "d1": {}, "d2": {}, "e1_ok": False, "d2_ok": False, "typed": False, "pure": "na", "puredetail": ""}
 
 
 def run_value(rid, cls, ver, val):
@@ -107,6 +107,24 @@ def run_value(rid, cls, ver, val):
         rec["re_ok"] = True
     except Exception as e:
         rec["err"] = rec["err"] or err(e)
+    if not isprim:
+        # the same object encoded under the other versions that define its class, then under this one again
+        others = [ov for ov in G.versions_of(cls) if ov != ver]
+        if others:
+            for ov in others:
+                try:
+                    B.encode(obj, ov)
+                except Exception:
+                    pass
+            try:
+                again = B.encode(obj, ver)
+                rec["pure"] = "same" if again == data else "differs"
+                if again != data:
+                    rec["puredetail"] = "after encoding the same object under %s, its encoding under %d changed (%d -> %d bytes)" % (
+                        others, ver, len(data), len(again))
+            except Exception as e:
+                rec["pure"] = "differs"
+                rec["puredetail"] = "after encoding the same object under %s it can no longer be encoded under %d: %s" % (others, ver, err(e))
     if B.has_eq(obj):
         try:
             r = obj.__eq__(dec)
